@@ -21,34 +21,42 @@ abbrev TMap := Go.KV String (List GType)
 
 /-- `types.Identical(types.Default(seen), types.Default(ty))` -/
 def sameDefault (ty : GType) (s : GType) : Bool := s.defaultTypeId == ty.defaultTypeId
-/-- `parsableTraitTypes[text]` (nil when absent) -/
+/-- `parseKeys[key]` (nil when absent) -/
 def tmGet (tm : TMap) (k : String) : List GType := (Go.kvGet tm k).getD default
 def markOf (x : GTraitInstance) : GTraitInstance := { x with repeatsParseKey := true }
+/-- the key of `parseKeys`: enum value and exact constant value -/
+def keyOf (x : GTraitInstance) : String := x.OwningValue.Name ++ "\x00" ++ x.keyValue
 
-/-- one instance of a trait of type `ty`: `none` = the error return; else the new maps and the instance (marked when
-its text already is a key under an identical default type) -/
-def vpStep (ty : GType) (m : SMap) (tm : TMap) (x : GTraitInstance) : Option (SMap × TMap × GTraitInstance) :=
+/-- second job, one instance: nothing for an instance without a constant of its own (`keyType == nil`); else the
+instance is marked when its (enum value, constant value) already is a key under an identical default type, and
+its type is recorded -/
+def vpMark (tm : TMap) (x : GTraitInstance) : TMap × GTraitInstance :=
+  if x.keyType.isNil then (tm, x)
+  else (Go.kvSet tm (keyOf x) (tmGet tm (keyOf x) ++ [x.keyType]),
+    if (tmGet tm (keyOf x)).any (sameDefault x.keyType) then markOf x else x)
+
+/-- one instance: `none` = the error return (its text stands under another enum value) -/
+def vpStep (m : SMap) (tm : TMap) (x : GTraitInstance) : Option (SMap × TMap × GTraitInstance) :=
   match Go.kvGet m x.value with
   | some o =>
     if o != x.OwningValue.Name then none
-    else some (Go.kvSet m x.value x.OwningValue.Name, Go.kvSet tm x.value (tmGet tm x.value ++ [ty]),
-      if (tmGet tm x.value).any (sameDefault ty) then markOf x else x)
-  | none => some (Go.kvSet m x.value x.OwningValue.Name, Go.kvSet tm x.value (tmGet tm x.value ++ [ty]), x)
+    else some (Go.kvSet m x.value x.OwningValue.Name, (vpMark tm x).1, (vpMark tm x).2)
+  | none => some (Go.kvSet m x.value x.OwningValue.Name, (vpMark tm x).1, (vpMark tm x).2)
 
 /-- the instances of one trait: (maps, instances as they are left behind, no error) -/
-def vpInsts (ty : GType) (m : SMap) (tm : TMap) : List GTraitInstance → SMap × TMap × List GTraitInstance × Bool
+def vpInsts (m : SMap) (tm : TMap) : List GTraitInstance → SMap × TMap × List GTraitInstance × Bool
   | [] => (m, tm, [], true)
   | x :: xs =>
-    match vpStep ty m tm x with
+    match vpStep m tm x with
     | none => (m, tm, x :: xs, false)
-    | some (m', tm', x') => let r := vpInsts ty m' tm' xs; (r.1, r.2.1, x' :: r.2.2.1, r.2.2.2)
+    | some (m', tm', x') => let r := vpInsts m' tm' xs; (r.1, r.2.1, x' :: r.2.2.1, r.2.2.2)
 
 /-- the traits: (descriptors as they are left behind, maps, no error) -/
 def vpDescs (m : SMap) (tm : TMap) : List GTraitDesc → List GTraitDesc × SMap × TMap × Bool
   | [] => ([], m, tm, true)
   | t :: ts =>
     if t.Parsable then
-      let r := vpInsts t.«Type» m tm t.Traits
+      let r := vpInsts m tm t.Traits
       if r.2.2.2 then let q := vpDescs r.1 r.2.1 ts; ({ t with Traits := r.2.2.1 } :: q.1, q.2.1, q.2.2.1, q.2.2.2)
       else ({ t with Traits := r.2.2.1 } :: ts, r.1, r.2.1, false)
     else let q := vpDescs m tm ts; (t :: q.1, q.2.1, q.2.2.1, q.2.2.2)
@@ -76,32 +84,31 @@ theorem mkT_idem (tr : GTraitDesc) (i : Nat) : mkT (mkT tr i) i = mkT tr i := by
   · simp [List.getD_eq_getElem?_getD, hi, markOf]
   · simp [List.getD_eq_getElem?_getD, hi, markOf, List.set_eq_of_length_le (Nat.le_of_not_lt hi)]
 
-/-- the loop over the types already recorded for a text: marks the instance when one is identical -/
-theorem vp_mark (body : GType → MarkSt → Go.M (ForInStep MarkSt)) (k3 i : Nat)
+/-- the loop over the types already recorded for a key: marks the instance when one satisfies `c` -/
+theorem vp_mark (body : GType → MarkSt → Go.M (ForInStep MarkSt)) (k3 i : Nat) (c : GType → Bool)
     (h : ∀ (seen : GType) (traits : List GTraitDesc) (tr : GTraitDesc), i < tr.Traits.length → k3 < traits.length →
       body seen (traits, tr) = pure (ForInStep.yield
-        (if sameDefault tr.«Type» seen then (traits.set k3 (mkT tr i), mkT tr i) else (traits, tr))))
+        (if c seen then (traits.set k3 (mkT tr i), mkT tr i) else (traits, tr))))
     (L : List GType) : ∀ (traits : List GTraitDesc) (tr : GTraitDesc), i < tr.Traits.length → k3 < traits.length →
       forIn L ((traits, tr) : MarkSt) body = pure
-        (if L.any (sameDefault tr.«Type») then (traits.set k3 (mkT tr i), mkT tr i) else (traits, tr)) := by
+        (if L.any c then (traits.set k3 (mkT tr i), mkT tr i) else (traits, tr)) := by
   induction L with
   | nil => intro traits tr _ _; simp
   | cons s L ih =>
     intro traits tr hi hk
     rw [List.forIn_cons, h s traits tr hi hk]
     simp only [pure_bind, List.any_cons]
-    by_cases hc : sameDefault tr.«Type» s = true
+    by_cases hc : c s = true
     · have hi' : i < (mkT tr i).Traits.length := by simp [mkT, hi]
       have hk' : k3 < (traits.set k3 (mkT tr i)).length := by simp [hk]
-      have hty : (mkT tr i).«Type» = tr.«Type» := rfl
-      rw [if_pos hc, ih _ _ hi' hk', hty, mkT_idem, List.set_set]
+      rw [if_pos hc, ih _ _ hi' hk', mkT_idem, List.set_set]
       simp [hc]
     · rw [if_neg hc, ih _ _ hi hk]
       simp [hc]
 
 theorem vp_inner (body : Nat → InnerSt → Go.M (ForInStep InnerSt)) (msg : String) (k3 : Nat)
     (h : ∀ (i : Nat) (traits : List GTraitDesc) (m : SMap) (tm : TMap) (tr : GTraitDesc) (hi : i < tr.Traits.length),
-      k3 < traits.length → traits[k3]? = some tr → body i (none, traits, m, tm, tr) = pure (match vpStep tr.«Type» m tm tr.Traits[i] with
+      k3 < traits.length → traits[k3]? = some tr → body i (none, traits, m, tm, tr) = pure (match vpStep m tm tr.Traits[i] with
         | none => ForInStep.done (some (traits, some msg), traits, m, tm, tr)
         | some (m', tm', x') => ForInStep.yield (none, traits.set k3 { tr with Traits := tr.Traits.set i x' }, m', tm',
             { tr with Traits := tr.Traits.set i x' })))
@@ -109,7 +116,7 @@ theorem vp_inner (body : Nat → InnerSt → Go.M (ForInStep InnerSt)) (msg : St
     ∀ (pre : List GTraitInstance) (m : SMap) (tm : TMap) (traits : List GTraitDesc) (tr : GTraitDesc),
       k3 < traits.length → tr.Traits = pre ++ suf → traits[k3]? = some tr →
       forIn (List.range' pre.length suf.length) ((none, traits, m, tm, tr) : InnerSt) body = pure (
-        let r := vpInsts tr.«Type» m tm suf
+        let r := vpInsts m tm suf
         let tr' : GTraitDesc := { tr with Traits := pre ++ r.2.2.1 }
         ((if r.2.2.2 then none else some (traits.set k3 tr', some msg)), traits.set k3 tr', r.1, r.2.1, tr')) := by
   induction suf with
@@ -124,17 +131,17 @@ theorem vp_inner (body : Nat → InnerSt → Go.M (ForInStep InnerSt)) (msg : St
     have hi : pre.length < tr.Traits.length := by rw [htr]; simp
     have hx : tr.Traits[pre.length] = x := by simp [htr]
     rw [List.length_cons, List.range'_succ, List.forIn_cons, h pre.length traits m tm tr hi hk hinv, hx]
-    obtain hs | ⟨p, hs⟩ : vpStep tr.«Type» m tm x = none ∨ ∃ p, vpStep tr.«Type» m tm x = some p := by
-      cases vpStep tr.«Type» m tm x <;> simp
-    · have hv : vpInsts tr.«Type» m tm (x :: suf) = (m, tm, x :: suf, false) := by simp [vpInsts, hs]
+    obtain hs | ⟨p, hs⟩ : vpStep m tm x = none ∨ ∃ p, vpStep m tm x = some p := by
+      cases vpStep m tm x <;> simp
+    · have hv : vpInsts m tm (x :: suf) = (m, tm, x :: suf, false) := by simp [vpInsts, hs]
       simp only [hs, hv]
       have e1 : ({ tr with Traits := pre ++ x :: suf } : GTraitDesc) = tr := by
         cases tr; simp at htr; simp [htr]
       simp only [pure_bind, e1, set_self _ _ _ hinv]
       rfl
     · obtain ⟨m', tm', x'⟩ := p
-      have hv : vpInsts tr.«Type» m tm (x :: suf) = ((vpInsts tr.«Type» m' tm' suf).1, (vpInsts tr.«Type» m' tm' suf).2.1,
-          x' :: (vpInsts tr.«Type» m' tm' suf).2.2.1, (vpInsts tr.«Type» m' tm' suf).2.2.2) := by
+      have hv : vpInsts m tm (x :: suf) = ((vpInsts m' tm' suf).1, (vpInsts m' tm' suf).2.1,
+          x' :: (vpInsts m' tm' suf).2.2.1, (vpInsts m' tm' suf).2.2.2) := by
         simp [vpInsts, hs]
       simp only [hs, hv, pure_bind]
       have hset : tr.Traits.set pre.length x' = (pre ++ [x']) ++ suf := by
@@ -149,12 +156,12 @@ theorem vp_outer (body : Nat → OuterSt → Go.M (ForInStep OuterSt)) (msg : St
     (h : ∀ (k : Nat) (traits : List GTraitDesc) (m : SMap) (tm : TMap) (hk : k < traits.length),
       body k (none, traits, m, tm) = pure (
         if traits[k].Parsable then
-          (if (vpInsts traits[k].«Type» m tm traits[k].Traits).2.2.2 then
-            ForInStep.yield (none, traits.set k { traits[k] with Traits := (vpInsts traits[k].«Type» m tm traits[k].Traits).2.2.1 },
-              (vpInsts traits[k].«Type» m tm traits[k].Traits).1, (vpInsts traits[k].«Type» m tm traits[k].Traits).2.1)
-          else ForInStep.done (some (traits.set k { traits[k] with Traits := (vpInsts traits[k].«Type» m tm traits[k].Traits).2.2.1 }, some msg),
-              traits.set k { traits[k] with Traits := (vpInsts traits[k].«Type» m tm traits[k].Traits).2.2.1 },
-              (vpInsts traits[k].«Type» m tm traits[k].Traits).1, (vpInsts traits[k].«Type» m tm traits[k].Traits).2.1))
+          (if (vpInsts m tm traits[k].Traits).2.2.2 then
+            ForInStep.yield (none, traits.set k { traits[k] with Traits := (vpInsts m tm traits[k].Traits).2.2.1 },
+              (vpInsts m tm traits[k].Traits).1, (vpInsts m tm traits[k].Traits).2.1)
+          else ForInStep.done (some (traits.set k { traits[k] with Traits := (vpInsts m tm traits[k].Traits).2.2.1 }, some msg),
+              traits.set k { traits[k] with Traits := (vpInsts m tm traits[k].Traits).2.2.1 },
+              (vpInsts m tm traits[k].Traits).1, (vpInsts m tm traits[k].Traits).2.1))
         else ForInStep.yield (none, traits, m, tm)))
     (suf : List GTraitDesc) :
     ∀ (pre : List GTraitDesc) (m : SMap) (tm : TMap),
@@ -170,27 +177,27 @@ theorem vp_outer (body : Nat → OuterSt → Go.M (ForInStep OuterSt)) (msg : St
     rw [List.length_cons, List.range'_succ, List.forIn_cons, h pre.length (pre ++ t :: suf) m tm hk]
     simp only [ht]
     by_cases hp : t.Parsable = true
-    · by_cases hok : (vpInsts t.«Type» m tm t.Traits).2.2.2 = true
-      · have hv : vpDescs m tm (t :: suf) = ({ t with Traits := (vpInsts t.«Type» m tm t.Traits).2.2.1 } ::
-              (vpDescs (vpInsts t.«Type» m tm t.Traits).1 (vpInsts t.«Type» m tm t.Traits).2.1 suf).1,
-            (vpDescs (vpInsts t.«Type» m tm t.Traits).1 (vpInsts t.«Type» m tm t.Traits).2.1 suf).2.1,
-            (vpDescs (vpInsts t.«Type» m tm t.Traits).1 (vpInsts t.«Type» m tm t.Traits).2.1 suf).2.2.1,
-            (vpDescs (vpInsts t.«Type» m tm t.Traits).1 (vpInsts t.«Type» m tm t.Traits).2.1 suf).2.2.2) := by
+    · by_cases hok : (vpInsts m tm t.Traits).2.2.2 = true
+      · have hv : vpDescs m tm (t :: suf) = ({ t with Traits := (vpInsts m tm t.Traits).2.2.1 } ::
+              (vpDescs (vpInsts m tm t.Traits).1 (vpInsts m tm t.Traits).2.1 suf).1,
+            (vpDescs (vpInsts m tm t.Traits).1 (vpInsts m tm t.Traits).2.1 suf).2.1,
+            (vpDescs (vpInsts m tm t.Traits).1 (vpInsts m tm t.Traits).2.1 suf).2.2.1,
+            (vpDescs (vpInsts m tm t.Traits).1 (vpInsts m tm t.Traits).2.1 suf).2.2.2) := by
           simp [vpDescs, hp, hok]
-        have hset : (pre ++ t :: suf).set pre.length { t with Traits := (vpInsts t.«Type» m tm t.Traits).2.2.1 }
-            = (pre ++ [{ t with Traits := (vpInsts t.«Type» m tm t.Traits).2.2.1 }]) ++ suf := by simp [List.set_append]
-        have := ih (pre ++ [{ t with Traits := (vpInsts t.«Type» m tm t.Traits).2.2.1 }]) (vpInsts t.«Type» m tm t.Traits).1
-          (vpInsts t.«Type» m tm t.Traits).2.1
+        have hset : (pre ++ t :: suf).set pre.length { t with Traits := (vpInsts m tm t.Traits).2.2.1 }
+            = (pre ++ [{ t with Traits := (vpInsts m tm t.Traits).2.2.1 }]) ++ suf := by simp [List.set_append]
+        have := ih (pre ++ [{ t with Traits := (vpInsts m tm t.Traits).2.2.1 }]) (vpInsts m tm t.Traits).1
+          (vpInsts m tm t.Traits).2.1
         simp only [List.length_append, List.length_singleton] at this
         rw [if_pos hp, if_pos hok]
         simp only [pure_bind, hset]
         rw [this]
         simp only [hv, List.append_assoc, List.singleton_append]
-      · have hv : vpDescs m tm (t :: suf) = ({ t with Traits := (vpInsts t.«Type» m tm t.Traits).2.2.1 } :: suf,
-            (vpInsts t.«Type» m tm t.Traits).1, (vpInsts t.«Type» m tm t.Traits).2.1, false) := by
+      · have hv : vpDescs m tm (t :: suf) = ({ t with Traits := (vpInsts m tm t.Traits).2.2.1 } :: suf,
+            (vpInsts m tm t.Traits).1, (vpInsts m tm t.Traits).2.1, false) := by
           simp [vpDescs, hp, hok]
-        have hset : (pre ++ t :: suf).set pre.length { t with Traits := (vpInsts t.«Type» m tm t.Traits).2.2.1 }
-            = pre ++ { t with Traits := (vpInsts t.«Type» m tm t.Traits).2.2.1 } :: suf := by simp [List.set_append]
+        have hset : (pre ++ t :: suf).set pre.length { t with Traits := (vpInsts m tm t.Traits).2.2.1 }
+            = pre ++ { t with Traits := (vpInsts m tm t.Traits).2.2.1 } :: suf := by simp [List.set_append]
         rw [if_pos hp, if_neg hok]
         simp only [pure_bind, hset, hv, Bool.false_eq_true, if_false]
     · have hv : vpDescs m tm (t :: suf) = (t :: (vpDescs m tm suf).1, (vpDescs m tm suf).2.1, (vpDescs m tm suf).2.2.1,
@@ -207,12 +214,12 @@ theorem vp_outer0 (body : Nat → OuterSt → Go.M (ForInStep OuterSt)) (msg : S
     (h : ∀ (k : Nat) (traits : List GTraitDesc) (m : SMap) (tm : TMap) (hk : k < traits.length),
       body k (none, traits, m, tm) = pure (
         if traits[k].Parsable then
-          (if (vpInsts traits[k].«Type» m tm traits[k].Traits).2.2.2 then
-            ForInStep.yield (none, traits.set k { traits[k] with Traits := (vpInsts traits[k].«Type» m tm traits[k].Traits).2.2.1 },
-              (vpInsts traits[k].«Type» m tm traits[k].Traits).1, (vpInsts traits[k].«Type» m tm traits[k].Traits).2.1)
-          else ForInStep.done (some (traits.set k { traits[k] with Traits := (vpInsts traits[k].«Type» m tm traits[k].Traits).2.2.1 }, some msg),
-              traits.set k { traits[k] with Traits := (vpInsts traits[k].«Type» m tm traits[k].Traits).2.2.1 },
-              (vpInsts traits[k].«Type» m tm traits[k].Traits).1, (vpInsts traits[k].«Type» m tm traits[k].Traits).2.1))
+          (if (vpInsts m tm traits[k].Traits).2.2.2 then
+            ForInStep.yield (none, traits.set k { traits[k] with Traits := (vpInsts m tm traits[k].Traits).2.2.1 },
+              (vpInsts m tm traits[k].Traits).1, (vpInsts m tm traits[k].Traits).2.1)
+          else ForInStep.done (some (traits.set k { traits[k] with Traits := (vpInsts m tm traits[k].Traits).2.2.1 }, some msg),
+              traits.set k { traits[k] with Traits := (vpInsts m tm traits[k].Traits).2.2.1 },
+              (vpInsts m tm traits[k].Traits).1, (vpInsts m tm traits[k].Traits).2.1))
         else ForInStep.yield (none, traits, m, tm))) :
     forIn (List.range' 0 gs.length) ((none, gs, m, tm) : OuterSt) body = pure (
       ((if (vpDescs m tm gs).2.2.2 then none else some ((vpDescs m tm gs).1, some msg)), (vpDescs m tm gs).1,
@@ -223,15 +230,15 @@ theorem vp_outer0 (body : Nat → OuterSt → Go.M (ForInStep OuterSt)) (msg : S
 theorem vp_inner0 (body : Nat → InnerSt → Go.M (ForInStep InnerSt)) (msg : String) (k3 : Nat)
     (m : SMap) (tm : TMap) (traits : List GTraitDesc) (tr : GTraitDesc) (hk : k3 < traits.length) (hinv : traits[k3]? = some tr)
     (h : ∀ (i : Nat) (traits : List GTraitDesc) (m : SMap) (tm : TMap) (tr : GTraitDesc) (hi : i < tr.Traits.length),
-      k3 < traits.length → traits[k3]? = some tr → body i (none, traits, m, tm, tr) = pure (match vpStep tr.«Type» m tm tr.Traits[i] with
+      k3 < traits.length → traits[k3]? = some tr → body i (none, traits, m, tm, tr) = pure (match vpStep m tm tr.Traits[i] with
         | none => ForInStep.done (some (traits, some msg), traits, m, tm, tr)
         | some (m', tm', x') => ForInStep.yield (none, traits.set k3 { tr with Traits := tr.Traits.set i x' }, m', tm',
             { tr with Traits := tr.Traits.set i x' }))) :
     forIn (List.range' 0 tr.Traits.length) ((none, traits, m, tm, tr) : InnerSt) body = pure (
-      ((if (vpInsts tr.«Type» m tm tr.Traits).2.2.2 then none
-          else some (traits.set k3 { tr with Traits := (vpInsts tr.«Type» m tm tr.Traits).2.2.1 }, some msg)),
-        traits.set k3 { tr with Traits := (vpInsts tr.«Type» m tm tr.Traits).2.2.1 }, (vpInsts tr.«Type» m tm tr.Traits).1,
-        (vpInsts tr.«Type» m tm tr.Traits).2.1, { tr with Traits := (vpInsts tr.«Type» m tm tr.Traits).2.2.1 })) := by
+      ((if (vpInsts m tm tr.Traits).2.2.2 then none
+          else some (traits.set k3 { tr with Traits := (vpInsts m tm tr.Traits).2.2.1 }, some msg)),
+        traits.set k3 { tr with Traits := (vpInsts m tm tr.Traits).2.2.1 }, (vpInsts m tm tr.Traits).1,
+        (vpInsts m tm tr.Traits).2.1, { tr with Traits := (vpInsts m tm tr.Traits).2.2.1 })) := by
   have := vp_inner body msg k3 h tr.Traits [] m tm traits tr hk (by simp) hinv
   simpa using this
 
@@ -250,36 +257,65 @@ theorem go_validateParsable_closed (e : String) (gs : List GTraitDesc) :
     by_cases hp : traits[k].Parsable = true
     · rw [if_pos hp, if_pos hp]
       rw [vp_inner0 _ validateParsableTraits_err1 k m tm traits traits[k] hk (by simp [hk]) ?h2]
-      · by_cases hok : (vpInsts traits[k].«Type» m tm traits[k].Traits).2.2.2 = true <;> simp [hok]
+      · by_cases hok : (vpInsts m tm traits[k].Traits).2.2.2 = true <;> simp [hok]
       case h2 =>
         intro i traits' m' tm' tr hi hk' hinv'
         simp only [listGet_lt _ _ hi, pure_bind, vpStep]
         have e1 : ({ tr with Traits := tr.Traits } : GTraitDesc) = tr := rfl
         have e2 : tr.Traits.set i tr.Traits[i] = tr.Traits := by simp
-        cases hg : Go.kvGet m' tr.Traits[i].value with
-        | none => simp [hg, e1, e2, set_self _ _ _ hinv', tmGet]
-        | some o =>
-          by_cases hne : o = tr.Traits[i].OwningValue.Name
-          · simp only [hg, Option.isSome_some, if_true, Option.getD_some, hne, bne_self_eq_false, Bool.false_eq_true, if_false]
-            rw [vp_mark _ k i ?h3 _ traits' tr hi hk']
-            · have hmk : mkT tr i = { tr with Traits := tr.Traits.set i (markOf tr.Traits[i]) } := by
-                simp [mkT, List.getD_eq_getElem?_getD, hi]
-              by_cases hany : (tmGet tm' tr.Traits[i].value).any (sameDefault tr.«Type») = true
-              · simp only [tmGet] at hany
-                simp [hany, hmk, tmGet, pure_bind]
-              · simp only [tmGet] at hany
-                simp [hany, tmGet, pure_bind, e1, e2, set_self _ _ _ hinv']
+        have hmk : mkT tr i = { tr with Traits := tr.Traits.set i (markOf tr.Traits[i]) } := by
+          simp [mkT, List.getD_eq_getElem?_getD, hi]
+        -- the second job, the same text in both branches of the `if ok`
+        have hmark : ∀ (M : SMap),
+            (if tr.Traits[i].keyType.isNil = true then
+              (pure (ForInStep.yield (none, traits', M, tm', tr)) : Go.M (ForInStep InnerSt))
+            else do
+              let s1 ← forIn ((Go.kvGet tm' (tr.Traits[i].OwningValue.Name ++ "\x00" ++ tr.Traits[i].keyValue)).getD default)
+                ((traits', tr) : MarkSt) (fun seen (s : MarkSt) =>
+                  if (seen.defaultTypeId == tr.Traits[i].keyType.defaultTypeId) = true then do
+                    let a ← Go.listGet s.2.Traits i
+                    let b ← Go.listSet s.2.Traits i { a with repeatsParseKey := true }
+                    let traits ← Go.listSet s.1 k { s.2 with Traits := b }
+                    pure (ForInStep.yield (traits, { s.2 with Traits := b }))
+                  else pure (ForInStep.yield (s.1, s.2)))
+              pure (ForInStep.yield (none, s1.1, M,
+                Go.kvSet tm' (tr.Traits[i].OwningValue.Name ++ "\x00" ++ tr.Traits[i].keyValue)
+                  ((Go.kvGet tm' (tr.Traits[i].OwningValue.Name ++ "\x00" ++ tr.Traits[i].keyValue)).getD default ++ [tr.Traits[i].keyType]),
+                s1.2)))
+            = pure (ForInStep.yield (none, traits'.set k { tr with Traits := tr.Traits.set i (vpMark tm' tr.Traits[i]).2 }, M,
+                (vpMark tm' tr.Traits[i]).1, { tr with Traits := tr.Traits.set i (vpMark tm' tr.Traits[i]).2 })) := by
+          intro M
+          unfold vpMark
+          by_cases hnil : tr.Traits[i].keyType.isNil = true
+          · simp [hnil, e1, e2, set_self _ _ _ hinv']
+          · rw [if_neg hnil, if_neg hnil]
+            rw [vp_mark _ k i (sameDefault tr.Traits[i].keyType) ?h3 _ traits' tr hi hk']
+            · by_cases hany : (tmGet tm' (keyOf tr.Traits[i])).any (sameDefault tr.Traits[i].keyType) = true
+              · have hany' := hany
+                simp only [tmGet, keyOf] at hany'
+                simp [hany, hany', hmk, tmGet, keyOf, pure_bind]
+              · have hany' := hany
+                simp only [tmGet, keyOf] at hany'
+                simp [hany, hany', tmGet, keyOf, pure_bind, e1, e2, set_self _ _ _ hinv']
             case h3 =>
               intro seen traits2 tr2 hi2 hk2
               have hmk2 : mkT tr2 i = { tr2 with Traits := tr2.Traits.set i (markOf tr2.Traits[i]) } := by
                 simp [mkT, List.getD_eq_getElem?_getD, hi2]
-              by_cases hc : sameDefault tr2.«Type» seen = true
-              · have hc' : (seen.defaultTypeId == tr2.«Type».defaultTypeId) = true := hc
+              by_cases hc : sameDefault tr.Traits[i].keyType seen = true
+              · have hc' : (seen.defaultTypeId == tr.Traits[i].keyType.defaultTypeId) = true := hc
                 simp [hc, hc', listGet_lt _ _ hi2, Go.listSet, hi2, hk2, hmk2, markOf]
-              · have hc' : (seen.defaultTypeId == tr2.«Type».defaultTypeId) = false := by
+              · have hc' : (seen.defaultTypeId == tr.Traits[i].keyType.defaultTypeId) = false := by
                   simpa [sameDefault] using hc
                 simp [hc, hc']
-          · simp [hg, hne]
+        cases hg : Go.kvGet m' tr.Traits[i].value with
+        | none =>
+          simp only [Option.isSome_none, Bool.false_eq_true, if_false]
+          exact hmark _
+        | some o =>
+          by_cases hne : o = tr.Traits[i].OwningValue.Name
+          · simp only [Option.isSome_some, if_true, Option.getD_some, hne, bne_self_eq_false, Bool.false_eq_true, if_false]
+            exact hmark _
+          · simp [hne]
     · rw [if_neg hp, if_neg hp]
 
 /-! ## the closed form and the model's `parsableUnique` -/
@@ -309,8 +345,8 @@ theorem scan_append (m : SMap) (a b : List (String × String)) :
       · simp [hg, hne]
       · simp only [hg, hne, if_false, ih, Bool.false_eq_true]
 
-theorem vpInsts_scan (ty : GType) (m : SMap) (tm : TMap) (xs : List GTraitInstance) :
-    (vpInsts ty m tm xs).1 = (scan m (pairsOfInsts xs)).1 ∧ (vpInsts ty m tm xs).2.2.2 = (scan m (pairsOfInsts xs)).2 := by
+theorem vpInsts_scan (m : SMap) (tm : TMap) (xs : List GTraitInstance) :
+    (vpInsts m tm xs).1 = (scan m (pairsOfInsts xs)).1 ∧ (vpInsts m tm xs).2.2.2 = (scan m (pairsOfInsts xs)).2 := by
   induction xs generalizing m tm with
   | nil => simp [vpInsts, scan, pairsOfInsts]
   | cons x xs ih =>
@@ -330,9 +366,9 @@ theorem vpDescs_scan (m : SMap) (tm : TMap) (gs : List GTraitDesc) :
     by_cases hp : t.Parsable = true
     · have hpo : pairsOf (t :: ts) = pairsOfInsts t.Traits ++ pairsOf ts := by simp [pairsOf, hp]
       rw [hpo, scan_append]
-      obtain ⟨h1, h2⟩ := vpInsts_scan t.«Type» m tm t.Traits
-      by_cases hok : (vpInsts t.«Type» m tm t.Traits).2.2.2 = true
-      · have := ih (vpInsts t.«Type» m tm t.Traits).1 (vpInsts t.«Type» m tm t.Traits).2.1
+      obtain ⟨h1, h2⟩ := vpInsts_scan m tm t.Traits
+      by_cases hok : (vpInsts m tm t.Traits).2.2.2 = true
+      · have := ih (vpInsts m tm t.Traits).1 (vpInsts m tm t.Traits).2.1
         simp only [vpDescs, hp, hok, if_true, ← h2, ← h1]
         exact this
       · simp only [vpDescs, hp, hok, if_true, ← h2, ← h1]
@@ -483,24 +519,31 @@ theorem modelRows_pairs {first : Genum.Value} {ts : List Genum.TraitDesc} {gs : 
     · simp only [hp, if_true, List.flatMap_cons, ih, rows_pairs hab.rows]
     · simp only [hp, if_false, ih, Bool.false_eq_true]
 
+theorem vpMark_rel {first : Genum.Value} {ty : String} {r : TraitRow} {x : GTraitInstance}
+    (h : RowRel first ty r x) (tm : TMap) : RowRel first ty r (vpMark tm x).2 := by
+  unfold vpMark
+  by_cases hn : x.keyType.isNil = true
+  · rw [if_pos hn]; exact h
+  · rw [if_neg hn]
+    by_cases ha : (tmGet tm (keyOf x)).any (sameDefault x.keyType) = true
+    · simp only [ha, if_true]; exact ⟨h.owner, h.text⟩
+    · simp only [ha, if_false, Bool.false_eq_true]; exact h
+
 theorem vpInsts_rel {first : Genum.Value} {ty : String} {rows : List TraitRow} {xs : List GTraitInstance}
-    (h : All₂ (RowRel first ty) rows xs) (gty : GType) (m : SMap) (tm : TMap) :
-    All₂ (RowRel first ty) rows (vpInsts gty m tm xs).2.2.1 := by
+    (h : All₂ (RowRel first ty) rows xs) (m : SMap) (tm : TMap) :
+    All₂ (RowRel first ty) rows (vpInsts m tm xs).2.2.1 := by
   induction h generalizing m tm with
   | nil => exact .nil
   | @cons r x rows xs hab hrest ih =>
     unfold vpInsts vpStep
     rcases Option.eq_none_or_eq_some (Go.kvGet m x.value) with hg | ⟨o, hg⟩
     · simp only [hg]
-      exact .cons hab (ih _ _)
+      exact .cons (vpMark_rel hab tm) (ih _ _)
     · by_cases hne : (o != x.OwningValue.Name) = true
       · simp only [hg, hne, if_true]
         exact .cons hab hrest
       · simp only [hg, hne, if_false, Bool.false_eq_true]
-        refine .cons ?_ (ih _ _)
-        split
-        · exact ⟨hab.owner, hab.text⟩
-        · exact hab
+        exact .cons (vpMark_rel hab tm) (ih _ _)
 
 theorem vpDescs_rel {first : Genum.Value} {ts : List Genum.TraitDesc} {gs : List GTraitDesc}
     (h : All₂ (DescRel first) ts gs) (m : SMap) (tm : TMap) : All₂ (DescRel first) ts (vpDescs m tm gs).1 := by
@@ -509,11 +552,11 @@ theorem vpDescs_rel {first : Genum.Value} {ts : List Genum.TraitDesc} {gs : List
   | @cons t g ts gs hab hrest ih =>
     unfold vpDescs
     by_cases hp : g.Parsable = true
-    · by_cases hok : (vpInsts g.«Type» m tm g.Traits).2.2.2 = true
+    · by_cases hok : (vpInsts m tm g.Traits).2.2.2 = true
       · rw [if_pos hp, if_pos hok]
-        exact .cons ⟨hab.name, hab.parsable, hab.fam, vpInsts_rel hab.rows _ m tm⟩ (ih _ _)
+        exact .cons ⟨hab.name, hab.parsable, hab.fam, vpInsts_rel hab.rows m tm⟩ (ih _ _)
       · rw [if_pos hp, if_neg hok]
-        exact .cons ⟨hab.name, hab.parsable, hab.fam, vpInsts_rel hab.rows _ m tm⟩ hrest
+        exact .cons ⟨hab.name, hab.parsable, hab.fam, vpInsts_rel hab.rows m tm⟩ hrest
     · rw [if_neg hp]
       exact .cons hab (ih _ _)
 
